@@ -2229,8 +2229,68 @@ def rule_collectors(repo):
     return res
 
 
+def rule_ifc_symmetric(repo):
+    """connect(ifc_a, ifc_b) and connect(ifc_b, ifc_a) must build the same connections: every custom connect() that exists is
+    tried (until one accepts) before falling back to by-name connection, whichever side it is on."""
+    import itertools
+    r = RuleResult('R-C08-ifc-symmetric', "interface connection tries the custom connect() of BOTH sides before connecting by name, so the "
+                                          "result does not depend on which side is written first")
+    m = repo.mod(L3)
+    f = m.get_func('ComponentLevel3._connect_interfaces')
+    a1, a2 = f.args.args[1].arg, f.args.args[2].arg
+    tail = [s_ for s_ in f.body if isinstance(s_, ast.If)]
+    if len(tail) != 1:
+        raise AnalysisError("_connect_interfaces: decision structure not found")
+    bad = None
+    for has1, has2, c1, c2 in itertools.product((False, True), repeat=4):
+        log = []
+
+        def hook(ev, call, log=log, has1=has1, has2=has2, c1=c1, c2=c2):
+            fn = norm(call.func)
+            if fn == 'hasattr' and len(call.args) == 2 and norm(call.args[1]).strip('"\'') == 'connect':
+                return has1 if norm(call.args[0]) == a1 else has2
+            if fn == f'{a1}.connect':
+                log.append('connect1')
+                return c1
+            if fn == f'{a2}.connect':
+                log.append('connect2')
+                return c2
+            if fn == 'connect_by_name':
+                log.append('byname')
+                return None
+            return NotImplemented
+        Evaluator({a1: 'O1', a2: 'O2', 's': 'S'}, arith=False, call_hook=hook)._block(tail)
+        r.evaluations += 1
+        accepted = (has1 and c1) or (has2 and c2)
+        want_byname = not accepted
+        tried1, tried2 = 'connect1' in log, 'connect2' in log
+        ok = ('byname' in log) == want_byname and log.count('byname') <= 1 and \
+            (not has1 or tried1 or (has2 and c2 and tried2)) and (not has2 or tried2 or (has1 and c1 and tried1)) and \
+            (tried1 <= has1) and (tried2 <= has2)
+        if not ok and bad is None:
+            bad = (has1, has2, c1, c2, list(log))
+    cons = "decision over {o1 has connect, o2 has connect, o1.connect accepts, o2.connect accepts}"
+    if bad:
+        r.bad(m, 'ComponentLevel3._connect_interfaces', cons,
+              f"with o1.connect {'present' if bad[0] else 'absent'}{' (declines)' if bad[0] and not bad[2] else ''} and o2.connect "
+              f"{'present' if bad[1] else 'absent'}{' (accepts)' if bad[1] and bad[3] else ''} the actions are {bad[4]}: a custom connect() "
+              f"that would handle the pair is skipped, so connect(a, b) and connect(b, a) yield different nets", tail[0].lineno)
+    else:
+        r.ok(m, 'ComponentLevel3._connect_interfaces', cons)
+    r.require_floor(1)
+    return r
+
+
+def rule_net_ordering(repo):
+    """in simulation every member of a net carries the writer's value: the net block must be ordered after the block that writes the
+    net's writer -- also when the writer is nested (slice of a struct field) and the block writes an intermediate ancestor.
+    Shared with C02 (R-C02-pairing)."""
+    from rules.c02 import rule_pairing
+    return rule_pairing(repo)
+
+
 RULES = [rule_symmetric, rule_const, rule_nodes, rule_flood, rule_seed, rule_unique, rule_propagate, rule_residence, rule_netblock, rule_overlap,
-         rule_pending_flag, rule_ancestors, rule_collectors]
+         rule_pending_flag, rule_ancestors, rule_collectors, rule_ifc_symmetric, rule_net_ordering]
 
 
 # ---------------------------------------------------------------------------------------------------------------
@@ -2240,6 +2300,7 @@ def _m(name, file, old, new, rule=None, count=1):
 
 
 MUTANTS = [
+    dict(name='ifc-o2-connect-not-tried', file=L3, old="      if not o1.connect( o2, s ): # o1.connect fail\n        if hasattr( o2, \"connect\" ):\n          if not o2.connect( o1, s ):\n            connect_by_name( o1, o2 )\n        else:\n          connect_by_name( o1, o2 )", new="      if not o1.connect( o2, s ): # o1.connect fail\n        connect_by_name( o1, o2 )", rule='R-C08-ifc-symmetric', count=1),
     dict(name='pending-flag-on-host', file=COMP, old="      top._dsl.all_adjacency[o2].add(o1)\n      top._dsl._has_pending_value_connections = True", new="      top._dsl.all_adjacency[o2].add(o1)\n      real_host._dsl._has_pending_value_connections = True", rule='R-C08-pending', count=1),
     dict(name='ancestors-top-only', file=L3, old="            obj = v.get_parent_object()\n            while obj.is_signal():\n              if obj not in writer_prop:\n                writer_prop[ obj ] = False\n              obj = obj.get_parent_object()", new="            obj = v.get_top_level_signal()\n            if obj is not v and obj not in writer_prop:\n              writer_prop[ obj ] = False", rule='R-C08-ancestors', count=1),
     # --- adjacency symmetry
